@@ -84,6 +84,14 @@ void splinetable<Alloc>::fit(const ::ndsparse& data,
 		                       +std::to_string(penaltyOrder.size())
 		                       +") should be 1 or the number of spline dimensions ("
 		                       +std::to_string(data.ndim)+")");
+	for(uint32_t i=0; i<data.ndim; i++){
+		if((penaltyOrder.size()>1?penaltyOrder[i]:penaltyOrder[0])>splineOrder[i])
+			throw std::logic_error("Penalty order ("
+			                       +std::to_string(penaltyOrder.size()>1?penaltyOrder[i]:penaltyOrder[0])
+			                       +") in dimension "+std::to_string(i)
+			                       +" exceeds the spline order ("
+			                       +std::to_string(splineOrder[i])+")");
+	}
 	if(monodim!=no_monodim && monodim>=data.ndim)
 		throw std::logic_error("Requested monotonic dimension ("
 		                       +std::to_string(monodim)
